@@ -318,4 +318,21 @@ def clause (inp : Input) (ob : Obs) : String :=
 
 end C08
 
+/-! ### hypotheses of the stability theorem (`Props.C03.C03_stable_checked`), decidable form -/
+
+def quietB (swr : Swr) (inp : Input) : Bool :=
+  let ss := (inp.probes.map getInfo).map (·.1)
+  let o := inp.opt
+  (inp.probes.all fun p => p.ready && p.postOk && p.status.isSome &&
+      (match p.rt1 with | some (_, true) => true | _ => false) && decide ((reported p).keys.Nodup)) &&
+  (ss.all fun s => s.scraping.all fun q => inp.active.contains q.1 && q.2.state == .normal) &&
+  (ss.zipIdx.all fun (si, i) => ss.zipIdx.all fun (sj, j) =>
+      i == j || si.scraping.keys.all fun h => !(sj.scraping.has h)) &&
+  (o.disableAlleviate || ss.all fun s => !Gen.procTrigger swr o s.rt && (headThreshold swr o s.rt).isNone) &&
+  (inp.active.all fun h => (scrapingSetOf ss).contains h ||
+      Gen.assignSkip (globalOf ss inp.explore h) || Gen.tooBig o (globalOf ss inp.explore h)) &&
+  decide (o.minShard ≤ (inp.probes.length : Int)) && decide ((inp.probes.length : Int) ≤ o.maxShard) &&
+  !o.idleOn
+
+
 end Kvass.Spec
